@@ -1,13 +1,17 @@
 #!/bin/bash
-# usage: seed_all.sh [seed-id ...]   -- runs every archived seeded change (or the given ones) against its property's quick
-# check in a scratch worktree (tools/seed_run_wt.sh); prints one line per seed; exit 1 if a seed is not detected.
+# usage: seed_all.sh [-j N] [seed-id ...]   -- runs every archived seeded change (or the given ones) against its property's
+# quick check in scratch worktrees (tools/seed_run_wt.sh), N at a time (default 3); prints one line per seed;
+# exit 1 if a seed is not detected.
 cd /verif
+jobs=3
+if [ "$1" = "-j" ]; then jobs=$2; shift 2; fi
 ids="$@"; [ -z "$ids" ] && ids=$(ls seeded)
-bad=0
+out=$(mktemp)
 for sid in $ids; do
+  [ -f seeded/$sid/meta.json ] || continue
   pid=$(python3 -c "import json;print(json.load(open('seeded/$sid/meta.json'))['property'])")
-  out=$(tools/seed_run_wt.sh $sid $pid 2>&1 | grep "^seed=")
-  echo "$out"
-  echo "$out" | grep -q "exit=1" || bad=1
-done
-exit $bad
+  echo "$sid $pid"
+done | xargs -P $jobs -n 2 sh -c 'VERIF_PROCS=5 tools/seed_run_wt.sh $0 $1 2>&1 | grep "^seed="' | tee $out
+bad=$(grep -vc "exit=1$" $out)
+rm -f $out
+[ "$bad" = "0" ]
